@@ -136,6 +136,8 @@ package db
 //@ func DatabaseContext.UpdateCollectionExplicitChannels
 //@   modifies *
 //@   only-contracts none
+// (C02: a removed grant must be invisible by the next request, so the clearing / storing is stamped with the current sequence)
+//@   also C02: clear-named, clear-stamped, clear-needed, update-at-seq, update-base, store-named, store-stamped
 //@   before[clear-named]   call SetCollectionExplicitChannels#1 $0 == princ && $1 == scopeName && $2 == collectionName && updatedCollectionAccess == nil
 //@   before[clear-stamped] call SetCollectionExplicitChannels#1 $3 == nil && $4 == seq
 //@   before[clear-needed]  call SetCollectionExplicitChannels#1 callres(CollectionExplicitChannels, 1, 0) != nil
